@@ -490,9 +490,15 @@ impl<C: BgpConfig + Send> Session<C> {
                 self.handle_event(Event::KeepaliveMsg).await?;
             }
             BgpMsg::Update(m) => {
+                // Only an established session passes UPDATEs on: in any
+                // other state the event below is an error and tears the
+                // session down.
+                let established = self.state() == State::Established;
                 self.handle_event(Event::UpdateMsg).await?;
-                let tx = self.channel.clone();
-                let _ = tx.send(Message::UpdateMessage(m)).await;
+                if established {
+                    let tx = self.channel.clone();
+                    let _ = tx.send(Message::UpdateMessage(m)).await;
+                }
             }
             BgpMsg::Notification(m) => {
                 let tx = self.channel.clone();
